@@ -114,6 +114,78 @@ func runWedge(c *ctx) {
 		e.sink.Close()
 		netn++
 	}
+	// bulk CREATION: one establishment with several hundred periodic URRs (fewer than the periodic server's queue holds) while
+	// a tick reports more sessions than the report queue holds.  One timer event per created URR fits; the loop finishes its
+	// turn, drains the reports, and everything goes on.
+	type cs struct{ sessions, urrs, latus int }
+	cscen := []cs{{140, 400, 200}}
+	if c.thorough() {
+		cscen = append(cscen, cs{150, 300, 100}, cs{200, 450, 300}, cs{140, 500, 50})
+	}
+	for _, x := range cscen {
+		e := newBufEnv(c, netn)
+		e.start()
+		var pend [][]byte
+		asr := e.rpc(message.NewAssociationSetupRequest(e.nextSeq(), ie.NewNodeID(e.ip(1), "", ""), ie.NewRecoveryTimeStamp(time.Unix(1700000000, 0))), &pend)
+		if causeOf(asr) != "1" {
+			fmt.Fprintln(os.Stderr, "harness: association refused")
+			die(3)
+		}
+		e.d.pk.mu.Lock()
+		e.d.pk.reports = func(cmd uint8, seid uint64, urr uint32) [][]byte { return [][]byte{usaReportAttr(seid, urr)} }
+		e.d.pk.mu.Unlock()
+		for i := 0; i < x.sessions; i++ {
+			rsp := e.rpc(message.NewSessionEstablishmentRequest(0, 0, 0, e.nextSeq(), 0, ie.NewNodeID(e.ip(1), "", ""),
+				ie.NewFSEID(uint64(0xa000+i), net.ParseIP(e.ip(1)), nil),
+				ie.NewCreateURR(ie.NewURRID(1), ie.NewMeasurementMethod(0, 1, 0), ie.NewReportingTriggers(0x01, 0x00), ie.NewMeasurementPeriod(time.Hour))), &pend)
+			if causeOf(rsp) != "1" {
+				fmt.Fprintln(os.Stderr, "harness: establishment refused:", causeOf(rsp))
+				die(3)
+			}
+		}
+		e.settle()
+		drainConn(e.smf)
+		e.d.k.mu.Lock()
+		e.d.k.delay = map[uint8]time.Duration{gtp5gnl.CMD_ADD_URR: time.Duration(x.latus) * time.Microsecond}
+		e.d.k.mu.Unlock()
+		ies := []*ie.IE{ie.NewNodeID(e.ip(1), "", ""), ie.NewFSEID(uint64(0xafff), net.ParseIP(e.ip(1)), nil)}
+		for u := 1; u <= x.urrs; u++ {
+			ies = append(ies, ie.NewCreateURR(ie.NewURRID(uint32(u)), ie.NewMeasurementMethod(0, 1, 0), ie.NewReportingTriggers(0x01, 0x00), ie.NewMeasurementPeriod(2*time.Hour)))
+		}
+		big := message.NewSessionEstablishmentRequest(0, 0, 0, e.nextSeq(), 0, ies...)
+		bb := make([]byte, big.MarshalLen())
+		if err := big.MarshalTo(bb); err != nil {
+			fmt.Fprintln(os.Stderr, "harness: marshal:", err)
+			die(3)
+		}
+		// the big establishment first; a moment into it the tick: the periodic server reports the sessions, parks on the full
+		// report queue (the loop is busy), and the rest of the establishment's timer events must still fit its queue
+		e.smf.WriteToUDP(bb, e.srvA)
+		time.Sleep(time.Duration(10+x.latus/50) * time.Millisecond)
+		go perio.VerifTick(forwarder.VerifPerio(e.d.g), time.Hour)
+		res := "alive"
+		deadline := time.Now().Add(8 * time.Second)
+		ok := false
+		for time.Now().Before(deadline) && !ok {
+			drainConn(e.smf)
+			ok = e.doFence(300 * time.Millisecond)
+		}
+		if !ok {
+			res = "wedged"
+		}
+		c.count("create." + res)
+		c.emit("T wedge.create sessions=%d urrs=%d latus=%d = %s", x.sessions, x.urrs, x.latus, res)
+		if ok {
+			e.d.k.mu.Lock()
+			e.d.k.delay = nil
+			e.d.k.mu.Unlock()
+			e.stop()
+		}
+		e.smf.Close()
+		e.fence.Close()
+		e.sink.Close()
+		netn++
+	}
 	// a tick still queued when its period's last URR disappears: the periodic server is busy with a slow query when a second
 	// tick is queued behind it; the session is deleted meanwhile (its removal events queue behind that tick).  Whatever the
 	// stale tick finds, the next registration of a periodic URR (the control loop calls into the periodic server for it) and
